@@ -1306,8 +1306,10 @@ lyd_diff_apply_r(struct lyd_node **first_node, struct lyd_node *parent_node, con
             /* the move may come with a default flag change */
             if (diff_node->flags & LYD_DEFAULT) {
                 match->flags |= LYD_DEFAULT;
+                lyd_np_cont_dflt_set(lyd_parent(match));
             } else {
                 match->flags &= ~LYD_DEFAULT;
+                lyd_np_cont_dflt_del(lyd_parent(match));
             }
         }
 
@@ -1322,11 +1324,13 @@ lyd_diff_apply_r(struct lyd_node **first_node, struct lyd_node *parent_node, con
         LY_CHECK_ERR_RET(!match, LOGERR_NOINST(ctx, diff_node), LY_EINVAL);
 
         if (match->schema->nodetype & LYD_NODE_TERM) {
-            /* special case of only dflt flag change */
+            /* special case of only dflt flag change, update the flag of the parent NP containers, too */
             if (diff_node->flags & LYD_DEFAULT) {
                 match->flags |= LYD_DEFAULT;
+                lyd_np_cont_dflt_set(lyd_parent(match));
             } else {
                 match->flags &= ~LYD_DEFAULT;
+                lyd_np_cont_dflt_del(lyd_parent(match));
             }
         } else {
             /* none operation on nodes without children is redundant and hence forbidden */
